@@ -1,8 +1,8 @@
 /-
   `hydrv auth`: replays one history of the C01 loopback harness on Hy.Model.Auth.
 
-  input   hist <cfg> <event> <event> ...        (events as the harness hands them on, with the
-                                                 (Method, Host, URL.Path) the server saw in hex)
+  input   hist <cfg> <event> <event> ...        (events as the harness hands them on; for an HTTP request:
+                                                 whether the server TREATED it as an authentication request)
   output  hist mon=<gate monitor><re-evaluation monitor> ev=<what each client event observes> c<i>=<effects of connection i as the fakes
           see them, in order> dg<i>=<datagrams sent>/<UDPMessages received>/0 ...
 
@@ -15,7 +15,6 @@
   outcome); it does not explore other interleavings (the theorems do).
 -/
 import Hy.Model.Auth
-import Hy.Model.Masq
 import Hy.Drv.Util
 namespace Hy.Drv.Auth
 open Hy Hy.Auth Hy.Drv
@@ -111,8 +110,9 @@ def drain : Nat → D → Nat → D
 def settle (d : D) (c : Nat) : D :=
   if (getCli d c).sawUDP then drain ((d.st.conn c).dgq.length + 1) d c else d
 
-def out233 (cfg : VCfg) : String :=
-  "233/" ++ (if cfg.udp then "true" else "false") ++ "/" ++ (if cfg.rxAuto then "auto" else toString cfg.maxRx)
+/-- HTTP outcomes are abstracted to `233` / `other`: what a non-233 response contains, and which
+    requests are auth-shaped, are C02's clauses (stream `masq`), not C01's -/
+def out233 (_cfg : VCfg) : String := "233"
 
 def after233 (d : D) (c : Nat) : D :=
   let k := getCli d c
@@ -131,7 +131,7 @@ def doAuthReq (d : D) (c : Nat) (auth : String) : D × String :=
     let (d2, _) := exec d1 c (.authVerdict (accepts auth))
     let (d3, e3) := exec d2 c .authCommit
     if e3.any (· == .resp233 c) then (after233 d3 c, out233 d.cfg)
-    else if e3.any (· == .masq c) then (d3, "masq")
+    else if e3.any (· == .masq c) then (d3, "other")
     else (d3, "stuck")
   else (d1, "stuck")
 
@@ -152,7 +152,7 @@ def release (d : D) (c : Nat) : D × String :=
         -- the client marks UDP as seen; settling happens after the queued request
         let k2 := getCli d2 c
         (setCli d2 { k2 with sawUDP := k2.sawUDP || d2.cfg.udp }, out233 d.cfg)
-      else if e2.any (· == .masq c) then (d2, "masq") else (d2, "stuck")
+      else if e2.any (· == .masq c) then (d2, "other") else (d2, "stuck")
     let (d4, o) :=
       match k.queued with
       | none => (d3, o1)
@@ -182,14 +182,15 @@ def simpleEvent (d : D) (tok : String) : Option (D × String) :=
       | 'C', [] => if k0.isClosed then some (d, "closed") else some (d, "not-closed")
       | 'N', [] => some (d, "none")
       | 'K', [] => some (d, "skipped")
-      | 'H', [m, h, p, a] =>
-        match strOfHex m, strOfHex h, strOfHex p with
-        | some m, some h, some p =>
-          if Masq.isAuthShape ⟨m, h, p⟩ then some (doAuthReq d c (unTok a))
-          else
-            let (d1, e1) := exec d c .http
-            some (d1, if e1.any (· == .masq c) then "masq" else "stuck")
-        | _, _, _ => none
+      | 'H', [treated, a] =>
+        -- `treated`: the server treated the request as an authentication request (observed by the
+        -- harness: the authenticator was consulted for it, or it was answered 233)
+        match parseBool treated with
+        | some true => some (doAuthReq d c (unTok a))
+        | some false =>
+          let (d1, e1) := exec d c .http
+          some (d1, if e1.any (· == .masq c) then "other" else "stuck")
+        | none => none
       | 'B', [a] =>
         let a := unTok a
         let (d1, e1) := exec d c (.authBegin a)
@@ -272,7 +273,7 @@ def render (cfg : VCfg) : List Eff → List String
   | .authCall _ cred :: r => s!"authCall({if cred = "" then "-" else cred})" :: render cfg r
   | .verdict _ v :: r => s!"verdict({showBool v})" :: render cfg r
   | .resp233 _ :: r => render cfg r
-  | .masq _ :: r => (if cfg.masq = 0 then [] else ["masq"]) ++ render cfg r
+  | .masq _ :: r => render cfg r
   | .online _ up :: r =>
     (if cfg.tl then [if up then "online+" else "online-"] else []) ++
     (if cfg.ev then [if up then "connect" else "disconnect"] else []) ++ render cfg r
